@@ -22,6 +22,8 @@ TRUSTED = [
     "save/restore); tied on every run by hx_air (canonical block lists must be equal)",
     "Model/Mono.v is a hand model of air/src/mono.rs (requests, instantiate rounds, substitution, per-call-site "
     "rewriting); tied on every run (instances, types, exact callee of every call, StructInit names)",
+    "hook 3c2a53e (cfg vbxq_aelys_lang_verif): aelys_air::mono::verif exposes type_to_string / substitute_type / infer_type_args "
+    "to the harness for the function-level ties on random types (incl. Ptr and fixed Array, which lower() never produces)",
     "hx_air's typed-AST -> skeleton and AirProgram -> Mono-model translations (structural maps; an error shows up as a tie mismatch)",
     "the validator in hx_air (mod validate) is the statement of the property on the real data structure; "
     "'argument types at a call' are the AIR operand types (constants by literal kind, locals by declaration)",
@@ -125,10 +127,11 @@ def run(ctx):
         else:
             # thorough: three seeds, every optimisation level in front of the lowering, dev and release harness
             okr, rpaths, rlog = vlib.harness_build(["hx_air"], profile="release")
-            runs = [("dev", ctx.seed, 1200, "sema,O1,O2,O3", True),
-                    ("dev", ctx.seed + 1000, 1200, "sema,O1,O2,O3", False)]
+            runs = [("dev", ctx.seed, 1500, "sema,O1,O2,O3", True),
+                    ("dev", ctx.seed + 1000, 1500, "sema,O1,O2,O3", False),
+                    ("dev", ctx.seed + 3000, 1500, "sema,O1,O2,O3", False)]
             if okr:
-                runs.append(("release", ctx.seed + 2000, 1200, "sema,O2", True))
+                runs.append(("release", ctx.seed + 2000, 1500, "sema,O2", True))
             else:
                 ctx.notes.append("release harness did not build; thorough tier ran dev only")
         merged, stat = [], {}
@@ -137,6 +140,8 @@ def run(ctx):
             args = ["--seed", str(sd), "--count", str(n), "--modes", modes]
             if with_corpus:
                 args += ["--corpus", corpus]
+            if k == 0:
+                args += ["--typefn", "400" if ctx.tier == "quick" else "3000"]
             o = run_harness(ctx, binp, args)
             if o is None:
                 return
@@ -144,6 +149,8 @@ def run(ctx):
                 f = line.split("\t")
                 if f[0] == "STAT":
                     stat[f[1]] = stat.get(f[1], 0) + int(f[2])
+                elif f[0] in ("FK", "FS", "FI"):
+                    merged.append(line)
                 elif len(f) > 1:
                     f[1] = f"{prof}{k}:{f[1]}"
                     merged.append("\t".join(f))
@@ -176,6 +183,7 @@ def _guard_check(ctx, vs, mo, src, unesc):
 
 def analyse(ctx, out):
     src, sk, mo, vs, stats, panics, rej, tyc, loc = {}, [], [], [], {}, [], 0, [], []
+    fnc = {"FK": [], "FS": [], "FI": []}
     for line in out.splitlines():
         f = line.split("\t")
         if f[0] == "SRC":
@@ -188,6 +196,8 @@ def analyse(ctx, out):
             tyc.append((f[1], f[2], f[3], f[4]))
         elif f[0] == "LO":
             loc.append((f[1], f[2], f[3], f[4]))
+        elif f[0] in ("FK", "FS", "FI"):
+            fnc[f[0]].append((f[1], f[2]))
         elif f[0] == "V":
             vs.append(dict(case=f[1], mode=f[2], stage=f[3], fn=int(f[4]), name=f[5], kind=f[6], detail=f[7] if len(f) > 7 else ""))
         elif f[0] == "STAT":
@@ -264,6 +274,31 @@ def analyse(ctx, out):
                       {"source": d0["source"], "case": d0["case"], "mode": d0["mode"], "implementation": d0["implementation"],
                        "model": d0["model"], "oracle": "contract tie"})
 
+    # ---- (f) function-level contract ties through the verif hook (type_to_string / substitute_type / infer_type_args)
+    FN = {"FK": ("(fun p : ty * ty => ty_eqb (key1 (fst p)) (key1 (snd p)))", "Bool.eqb", lambda o: o, "type_to_string vs key1"),
+          "FS": ("(fun x : list N * list ty * ty => subst (fst (fst x)) (snd (fst x)) (snd x))", "ty_eqb", lambda o: o, "substitute_type vs subst"),
+          "FI": ("(fun x : list N * list ty * list ty => infer_type_args (mkmfn (NPlain 0) (fst (fst x)) "
+                 "(List.combine (List.map N.of_nat (List.seq 0 (List.length (snd (fst x))))) (snd (fst x))) T_I64 [] [] []) "
+                 "(mkmfn (NPlain 1) [] [] T_I64 [] [] []) (List.map AConst (snd x)))",
+                 "(fun a b : option (list ty) => match a, b with Some x, Some y => tylist_eqb x y | None, None => true | _, _ => false end)",
+                 lambda o: f"(({o}) : option (list ty))", "infer_type_args vs infer_type_args")}
+    n_fn = 0
+    for tag, (runf, eqb, wrap, what) in FN.items():
+        cs = [(q, wrap(o)) for (q, o) in fnc[tag]]
+        if not cs:
+            continue
+        n_fn += len(cs)
+        ff, err = vlib.coq_eval_cases("c17" + tag.lower(), IMPORT_MO, runf, eqb, cs, shard=150, timeout=900)
+        if err:
+            ctx.broken.append(f"correspondence C17/{tag}: model evaluation failed")
+            ctx.log(err[-2000:])
+        if ff:
+            ctx.broken.append(f"correspondence C17/function {what}: {len(ff)} of {len(cs)} random cases differ")
+            q0, o0 = fnc[tag][ff[0]]
+            ctx.violation("tie:fn:" + tag, f"{what}: the Rust helper and the model function disagree",
+                          {"query": q0, "implementation": o0, "oracle": "function-level contract tie (verif hook)"})
+    ctx.cov["function_level_cases"] = n_fn
+
     # ---- (e) locals contract tie: per function, how many ids are parameters / declared / mentioned
     lo_cases = [(q, f"(({o}) : list (list N))") for (_, _, q, o) in loc]
     lfails, err = vlib.coq_eval_cases("c17lo", IMPORT_LO, "lobs", "nlist2_eqb", lo_cases,
@@ -318,7 +353,7 @@ def analyse(ctx, out):
         for fn in re.findall(r"\[\[[^\]]*\](?:;\[[^\]]*\])+\]", o):
             shapes.add(hashlib.sha1(fn.encode()).hexdigest())
     mono_shapes = {hashlib.sha1(o.encode()).hexdigest() for (_, _, _, o) in mo if not o.startswith("([],")}
-    ctx.cov["evaluations"] = len(sk_cases) + len(mo_cases) + len(ty_cases) + len(lo_cases)
+    ctx.cov["evaluations"] = len(sk_cases) + len(mo_cases) + len(ty_cases) + len(lo_cases) + n_fn
     ctx.cov["distinct_nontrivial"] = len(shapes) + len(mono_shapes)
     ctx.cov["distinct_function_cfgs_with_2plus_blocks"] = len(shapes)
     ctx.cov["distinct_mono_outcomes_with_instances"] = len(mono_shapes)
